@@ -630,6 +630,77 @@ def _forms_case(spec):
                               "msg": "variable on %s initialised with %s (%s BCs), then %s raises %s: %s"
                                      % (U.spec_id(spec), iname, bname, ename, type(e).__name__, str(e)[:120]),
                               "detail": {"grid": U.spec_id(spec)}})
+    # boundary coefficients: a face left at its default, or replaced by a BoundaryFace built from float / integer
+    # arrays, then every supported coefficient edit: the coefficients read back are the ones assigned
+    BF = pf.boundary.BoundaryFace
+    side = m.sides[1]
+    for fname in ("default", "replaced_float", "replaced_int", "replaced_bool"):
+        for ename in ("set_c", "slice_c", "fixedValue", "fixedGradient", "newtonCooling", "c_iadd", "index_a", "set_b"):
+            mesh = m.mesh()
+            try:
+                bc = pf.BoundaryConditions(mesh)
+                o = getattr(bc, side)
+                sh = np.asarray(o._a).shape
+                if fname == "replaced_float":
+                    setattr(bc, side, BF(np.ones(sh), np.zeros(sh), np.zeros(sh)))
+                elif fname == "replaced_int":
+                    setattr(bc, side, BF(np.ones(sh, dtype=np.int64), np.zeros(sh, dtype=np.int64), np.zeros(sh, dtype=np.int64)))
+                elif fname == "replaced_bool":
+                    setattr(bc, side, BF(np.ones(sh, dtype=bool), np.zeros(sh, dtype=bool), np.zeros(sh, dtype=bool)))
+                v = pf.CellVariable(mesh, m.pat[0].copy(), bc)
+                bf = getattr(v.BCs, side)
+                A, B, C = (np.array(x, dtype=float) for x in (bf.a, bf.b, bf.c))
+                if ename == "set_c":
+                    bf.c = 1.25
+                    C[...] = 1.25
+                elif ename == "slice_c":
+                    bf.c[:] = 0.75
+                    C[...] = 0.75
+                elif ename == "fixedValue":
+                    bf.fixedValue(1.5)
+                    A[...], B[...], C[...] = 0.0, 1.0, 1.5
+                elif ename == "fixedGradient":
+                    bf.fixedGradient(0.5)
+                    A[...], B[...], C[...] = 1.0, 0.0, 0.5
+                elif ename == "newtonCooling":
+                    bf.newtonCooling(1.0, 2.5, 3.0)
+                    ref_bf = getattr(pf.BoundaryConditions(mesh), side)
+                    ref_bf.newtonCooling(1.0, 2.5, 3.0)
+                    A, B, C = (np.array(x, dtype=float) for x in (ref_bf.a, ref_bf.b, ref_bf.c))
+                elif ename == "c_iadd":
+                    bf.c += 0.5
+                    C = C + 0.5
+                elif ename == "index_a":
+                    a_ = bf.a
+                    a_[(0,) * a_.ndim] = 3.5
+                    A[(0,) * A.ndim] = 3.5
+                else:
+                    bf.b = 0.25
+                    B[...] = 0.25
+                n += 1
+                got = [np.asarray(x, dtype=float) for x in (bf.a, bf.b, bf.c)]
+                if not all(np.array_equal(g_, w_) for g_, w_ in zip(got, (A, B, C))):
+                    F.append({"key": "C09:bc_edit_lost:%s:%s" % (fname, ename),
+                              "msg": "boundary face %s of a variable on %s (%s), then %s: coefficients read back a=%s b=%s c=%s, assigned a=%s b=%s c=%s"
+                                     % (side, U.spec_id(spec), fname, ename, got[0].ravel()[:2].tolist(), got[1].ravel()[:2].tolist(),
+                                        got[2].ravel()[:2].tolist(), A.ravel()[:2].tolist(), B.ravel()[:2].tolist(), C.ravel()[:2].tolist()),
+                              "detail": {"grid": U.spec_id(spec)}})
+                    continue
+                nb = pf.BoundaryConditions(mesh)
+                nf = getattr(nb, side)
+                nf.a, nf.b, nf.c = A, B, C
+                ref = pf.CellVariable(mesh, m.pat[0].copy(), nb)
+                w = World(mesh)
+                a = pf.solvePDE(v, m.terms(w, v))
+                b = pf.solvePDE(ref, m.terms(w, ref))
+                if not m._same(a._value, b._value):
+                    F.append({"key": "C09:bc_edit_stale:%s:%s" % (fname, ename),
+                              "msg": "boundary face %s on %s (%s), then %s: the next solvePDE differs from a fresh start with the assigned coefficients"
+                                     % (side, U.spec_id(spec), fname, ename), "detail": {"grid": U.spec_id(spec)}})
+            except Exception as e:  # noqa: BLE001
+                F.append({"key": "C09:bc_edit_exception:%s:%s:%s" % (fname, ename, type(e).__name__),
+                          "msg": "boundary face %s on %s (%s), then %s raises %s: %s"
+                                 % (side, U.spec_id(spec), fname, ename, type(e).__name__, str(e)[:120]), "detail": {"grid": U.spec_id(spec)}})
     return n, F
 
 
